@@ -484,6 +484,9 @@ func vc18NewUniverse(t *testing.T, r *vRand, st map[string]int) *vc18U {
 	on := mk(3, basics.Online, uint64(500+r.Intn(5000))*A+uint64(r.Intn(1000000)))
 	on.VoteID[0], on.SelectionID[0], on.StateProofID[0] = 7, 8, 9
 	on.VoteFirstValid, on.VoteLastValid, on.VoteKeyDilution = 1, basics.Round(3+r.Intn(3000)), 100
+	if r.Intn(3) == 0 {
+		on.VoteLastValid = basics.Round(1 + r.Intn(6)) // expires during the run
+	}
 	on.IncentiveEligible = r.Bool()
 	accts[u.addrs[3]] = on
 	accts[u.addrs[4]] = mk(4, basics.NotParticipating, uint64(100+r.Intn(1000))*A+uint64(r.Intn(1000000)))
@@ -579,8 +582,8 @@ func (u *vc18U) genTx(ev *BlockEvaluator, rnd basics.Round) vc18Tx {
 	p := ev.proto
 	var tx transactions.Transaction
 	s := u.user()
-	for k := 0; k < 6; k++ {
-		if b, _ := u.balance(ev, s); b > p.MinBalance {
+	for k := 0; k < 8; k++ {
+		if b, m := u.balance(ev, s); b > m+2*p.MinTxnFee {
 			break
 		}
 		s = u.user()
@@ -605,6 +608,10 @@ func (u *vc18U) genTx(ev *BlockEvaluator, rnd basics.Round) vc18Tx {
 	kind := r.Intn(20 + u.assetWeight)
 	switch {
 	case kind >= 20: // asset transaction
+		if spendable < 2*p.MinBalance && r.Intn(4) != 0 {
+			s = 2 // creations and opt-ins raise the requirement: mostly let the rich account do them
+			tx.Sender = u.addrs[s]
+		}
 		s = u.genAsset(ev, &tx, s)
 	case kind < 13: // payment
 		tx.Type = protocol.PaymentTx
@@ -656,6 +663,9 @@ func (u *vc18U) genTx(ev *BlockEvaluator, rnd basics.Round) vc18Tx {
 			tx.VotePK[0], tx.SelectionPK[0], tx.StateProofPK[0] = byte(10+r.Intn(5)), byte(20+r.Intn(5)), byte(30+r.Intn(5))
 			tx.VoteFirst = rnd.SubSaturate(basics.Round(r.Intn(3)))
 			tx.VoteLast = rnd + basics.Round(1+r.Intn(3000))
+			if r.Intn(3) == 0 {
+				tx.VoteLast = rnd + basics.Round(1+r.Intn(3)) // expires soon
+			}
 			tx.VoteKeyDilution = uint64(1 + r.Intn(1000))
 			if r.Intn(3) == 0 && spendable > p.Payouts.GoOnlineFee {
 				tx.Fee.Raw = p.Payouts.GoOnlineFee + uint64(r.Intn(3))
